@@ -446,9 +446,9 @@ def Side.neg : Side → Side
 
 /-- the pair stored for the canonical variable when the user's `bounds()` entry `(lo, hi)` is keyed
     by an alias (`AliasDict.__setitem__`): unchanged for a plain alias, swapped and negated for a
-    negated alias `a = -x` (`lo ≤ -x ≤ hi` is `-hi ≤ x ≤ -lo`).  A `None` side under a negated
-    alias makes the code raise (`-None`); the totalised model keeps it unbounded, the generators
-    give `∓inf` there instead. -/
+    negated alias `a = -x` (`lo ≤ -x ≤ hi` is `-hi ≤ x ≤ -lo`).  A `None` (missing) side stays
+    missing and changes places like the others (`(None, 5)` under `a = -x` is `(-5, None)`; since
+    the repair F56 the code does the same instead of raising on `-None`). -/
 def aliasSides (negated : Bool) (lo hi : Side) : Side × Side :=
   if negated then (hi.neg, lo.neg) else (lo, hi)
 
